@@ -709,7 +709,36 @@ class Generated:
         self.label_text = {}  # label -> clause text
         self.generated = []   # descriptions of generated oracle text
 
-def generate(spec_path, open_findings=()):
+def auto_helper(path, name):
+    """R15: a free function that a copied body calls but the unit does not list.  If it is a single side-effect-free
+    expression (no statements, no `let`, no macro other than matches!), copy it with the contract `ensures r == <its body>`,
+    so that callers see exactly what it computes; otherwise refuse (the unit stays undecided)."""
+    sf = source(path)
+    found = sf.find_top("fn", name)
+    if len(found) != 1:
+        return None
+    it = found[0]
+    text = sf.src[it.start:it.end]
+    st, bo, arrow, wh = _fn_parts(text)
+    if bo is None or arrow is None: return None
+    bc = match_close(st, bo)
+    body_toks = st[bo + 1:bc]
+    if any(t.kind == "punct" and t.text == ";" for t in body_toks): return None
+    if any(t.kind == "ident" and t.text in ("let", "return", "loop", "while", "for", "unsafe") for t in body_toks): return None
+    for k, t in enumerate(body_toks):
+        if t.kind == "punct" and t.text == "!" and k > 0 and body_toks[k - 1].kind == "ident" and body_toks[k - 1].text != "matches": return None
+        if t.kind == "punct" and t.text == "&" and k + 1 < len(body_toks) and body_toks[k + 1].text == "mut": return None
+    body = text[st[bo].end:st[bc].start].strip()
+    pc = Piece(); pc.path = path; pc.selector = "fn " + name; pc.span = [it.start, it.end]; pc.orig = text
+    pc.sha256 = hashlib.sha256(text.encode()).hexdigest(); pc.rules = ["R1", "R15"]
+    stop = wh if wh is not None else bo
+    new = text[:st[arrow + 1].start] + "(r: " + text[st[arrow + 1].start:st[stop - 1].end] + ")" + text[st[stop - 1].end:st[bo].start] \
+          + "\n    ensures r == (" + body + "),\n" + text[st[bo].start:]
+    new = rule_r12(new, "fn", False, pc.rules)
+    pc.text = "// ---- extracted (R15: helper pulled in automatically, contract = its own body): %s :: fn %s\n%s" % (path, name, new)
+    return pc
+
+def generate(spec_path, open_findings=(), auto_helpers=()):
     """open_findings: set of finding ids that are open (for //@ if-open)."""
     lines = open(spec_path).read().split("\n")
     out = []
@@ -893,5 +922,19 @@ def generate(spec_path, open_findings=()):
         if m:
             gen.labels[n] = m.group(1)
             gen.label_text[m.group(1)] = l.split("//#")[0].strip()
+    if auto_helpers:
+        # insert before the last closing of the verus! block
+        k = max(i for i, l in enumerate(out) if l.strip().startswith("} // verus!"))
+        extra = []
+        for pc in auto_helpers:
+            gen.pieces.append(pc)
+            extra.extend(pc.text.split("\n"))
+        out[k:k] = extra
+        gen.labels = {}; gen.label_text = {}
+        for n, l in enumerate(out, 1):
+            m = re.search(r"//#\s*([\w.\-]+)", l)
+            if m:
+                gen.labels[n] = m.group(1)
+                gen.label_text[m.group(1)] = l.split("//#")[0].strip()
     gen.text = "\n".join(out) + "\n"
     return gen
